@@ -487,8 +487,7 @@ def worker_main(path):
                 exp = Experiment(pp, task["spec"])
                 runs = []
                 for r in explore(exp, task["bound"], task["limit"]):
-                    r.pop("choices")
-                    runs.append(r)
+                    runs.append({k: v for k, v in r.items() if k != "choices"})
                 out.append({"serial": exp.serial, "runs": runs})
             elif kind == "schedules":
                 exp = Experiment(pp, task["spec"])
@@ -513,3 +512,455 @@ def worker_main(path):
 if __name__ == "__main__" and len(sys.argv) >= 3 and sys.argv[1] == "worker":
     worker_main(sys.argv[2])
     sys.exit(0)
+
+
+# =================================================================================================
+# Plugin side (runs inside ./check)
+# =================================================================================================
+from tools import vlib  # noqa: E402
+
+EV_CODE = {"acqP": 1, "relP": 2, "get+": 3, "get-": 4, "set": 5, "clear": 6, "acqR": 7, "relR": 8,
+           "mget+": 9, "mget-": 10, "mset": 11, "mdel": 12, "mclear": 13, "block": 15, "done": 16}
+
+DIGITS = "1239"
+# right-recursive expression grammar with a shared Forward (packrat: hits after backtracking)
+#   expr <<= term '+' expr | term ;  term <<= '(' expr ')' | num
+G_EXPR = [["fwd", 1], ["mf", [2, 3]], ["and", [3, 4, 0]], ["fwd", 5], ["lit", "+"], ["mf", [6, 9]],
+          ["and", [7, 0, 8]], ["lit", "("], ["lit", ")"], ["word", DIGITS]]
+# list of items whose parse action calls another element's parse_string (reset_cache INSIDE the outer parse)
+#   lst <<= item ',' lst | item ;  item = Word("ab") + action(inner.parse_string) ;  inner = Word("a") + Opt(Word("b"))... kept tiny
+G_ACT = [["fwd", 1], ["mf", [2, 3]], ["and", [3, 4, 0]], ["act", "ab", 5], ["lit", ","], ["and", [6, 7]],
+         ["lit", "a"], ["opt", 8], ["word", "ab"]]
+# left-recursive:  E <<= E '+' num | num
+G_LR = [["fwd", 1], ["mf", [2, 4]], ["and", [0, 3, 4]], ["lit", "+"], ["word", DIGITS]]
+# the smallest F-15 shape: a Forward that is not even recursive
+G_FW = [["fwd", 1], ["word", "ab"]]
+
+GRAMMARS = {"expr": G_EXPR, "act": G_ACT, "lr": G_LR, "fw": G_FW}
+
+F15_CLASS_WRONG = "F-15:lr:wrong-result-predicted-by-model"
+F15_CLASS_KEYERR = "F-15:lr:internal-KeyError-predicted-by-model"
+
+
+def spec(gname, mode, jobs, size=128):
+    return {"gname": gname, "grammar": GRAMMARS[gname], "mode": mode, "size": size, "jobs": jobs}
+
+
+def spec_id(sp):
+    return "%s/%s/%s" % (sp["gname"], sp["mode"], ";".join("%s:%d:%s" % (k[:5], e, s) for k, e, s in sp["jobs"]))
+
+
+def rle(sched):
+    out = []
+    for t, g in itertools.groupby(sched):
+        n = len(list(g))
+        out.append("%d" % t if n == 1 else "%dx%d" % (t, n))
+    return ",".join(out)
+
+
+# ---- Python -> Coq
+def coq_nats(s):
+    return "[" + ";".join("%d" % ord(c) for c in s) + "]"
+
+
+def coq_node(nd):
+    k = nd[0]
+    if k == "lit":
+        return "NLit %s" % coq_nats(nd[1])
+    if k == "word":
+        return "NWord %s" % coq_nats(nd[1])
+    if k == "and":
+        return "NAnd [%s]" % ";".join(map(str, nd[1]))
+    if k == "mf":
+        return "NMF [%s]" % ";".join(map(str, nd[1]))
+    if k == "opt":
+        return "NOpt %d" % nd[1]
+    if k == "fwd":
+        return "NFwd %d" % nd[1]
+    if k == "act":
+        return "NAct %s %d" % (coq_nats(nd[1]), nd[2])
+    raise ValueError(k)
+
+
+KIND = {"parse_string": "KParseString", "scan_string": "KScanString"}
+PREAMBLE = ("From Coq Require Import List Arith Bool.\nFrom PP Require Import Model.Prog Model.Threads Model.ThreadsMini.\n"
+            "Import ListNotations.\n")
+
+
+def model_exprs(i, sp, schedules):
+    """Coq definitions + one expression per schedule"""
+    g = "Definition G%d : list node := [%s].\n" % (i, "; ".join(coq_node(n) for n in sp["grammar"]))
+    lr = sp["mode"] == "lr"
+    jobs = "; ".join("%s %s %d %s" % ("ljob" if lr else "job", KIND[k], e, coq_nats(s)) for k, e, s in sp["jobs"])
+    g += "Definition J%d := [%s].\n" % (i, jobs)
+    size = "None" if sp.get("size") is None else "(Some %d)" % sp["size"]
+    exprs = []
+    n = len(sp["jobs"])
+    for s in schedules:
+        # one extra entry per thread: the model needs a (purely local) step to notice that a thread has finished
+        sl = "[%s]" % ";".join(map(str, list(s) + list(range(n))))
+        if lr:
+            exprs.append("run_lr G%d J%d %s" % (i, i, sl))
+        else:
+            exprs.append("run_packrat G%d %s %s J%d %s" % (i, size, "true" if sp["mode"] == "packrat" else "false", i, sl))
+    return g, exprs
+
+
+def from_model_outcome(o, jobkind):
+    """model outcome -> canonical form used by the worker"""
+    if o == "None":
+        return ["unfinished"]
+    assert o[0] == "Some", o
+    o = o[1]
+    s = lambda l: "".join(chr(c) for c in l)
+    if o == "KeyErr" or o == ("KeyErr",):
+        return ["internal", "KeyError"]
+    if o[0] == "Ok":
+        return ["ok", [s(t) for t in o[2]]]
+    if o[0] == "Fail":
+        return ["exc", "ParseException", o[1]]
+    if o[0] == "Scan":
+        return ["ok", [[[s(t) for t in m[0]], m[1], m[2]] for m in o[1]]]
+    raise ValueError(o)
+
+
+def same_outcome(impl, model):
+    if impl[0] == "internal":
+        return model[0] == "internal" and impl[1] == model[1]
+    return impl == model
+
+
+# ---- subprocess handling
+def run_worker(tasks, tag, timeout):
+    d = os.path.join(vlib.WORK, "c15")
+    os.makedirs(d, exist_ok=True)
+    path = os.path.join(d, "task_%s_%d.json" % (tag, os.getpid()))
+    json.dump({"tasks": tasks}, open(path, "w"))
+    if os.path.exists(path + ".out"):
+        os.remove(path + ".out")
+    env = dict(os.environ)
+    env["PYTHONPATH"] = vlib.REPO + os.pathsep + vlib.VERIF
+    try:
+        p = subprocess.run([vlib.PY, os.path.abspath(__file__), "worker", path], env=env, timeout=timeout,
+                           stdout=subprocess.PIPE, stderr=subprocess.STDOUT, text=True)
+        rc, out = p.returncode, p.stdout
+    except subprocess.TimeoutExpired as e:
+        rc, out = 124, "TIMEOUT after %ss" % timeout
+    res = None
+    if os.path.exists(path + ".out"):
+        try:
+            res = json.load(open(path + ".out"))
+        except Exception:
+            res = None
+    for q in (path, path + ".out"):
+        if os.path.exists(q):
+            os.remove(q)
+    return rc, out, res
+
+
+def run_tasks_parallel(tasks, timeout, workers=6):
+    """each task in its own subprocess, a few at a time; returns list aligned with tasks: (rc, out, result-or-None)"""
+    from concurrent.futures import ThreadPoolExecutor
+    with ThreadPoolExecutor(max_workers=workers) as ex:
+        futs = [ex.submit(run_worker, [t], "%d" % i, timeout) for i, t in enumerate(tasks)]
+        out = []
+        for f in futs:
+            rc, o, res = f.result()
+            out.append((rc, o, res[0] if res else None))
+    return out
+
+
+# ---- oracle + comparison of one replayed schedule
+def judge_run(ctx, sp, serial, run, model, where):
+    """serial: impl outcomes alone; run: worker dict; model: (trace codes, outcomes) or None"""
+    sid = spec_id(sp)
+    sched = run["schedule"]
+    key_tail = "%s|sched=%s" % (sid, rle(sched))
+    replay = {"kind": "schedule", "spec": sp, "schedule": sched}
+    lr = sp["mode"] == "lr"
+    agreed = True
+    m_out = None
+    if model is not None:
+        m_trace, m_res = model
+        n = len(sp["jobs"])
+        if [tuple(x) for x in m_trace[-n:]] != [(t, 16) for t in range(n)] and run["hang"] is None:
+            agreed = False
+            ctx.broken("correspondence:model threads not finished at the end of %s: %r" % (key_tail[:160], m_trace[-n:]))
+        m_trace = m_trace[:-n]
+        m_out = [from_model_outcome(o, sp["jobs"][i][0]) for i, o in enumerate(m_res)]
+        i_trace = [(t, EV_CODE.get(k, -1)) for t, k in run["trace"]]
+        if run["hang"] is None:
+            if i_trace != [tuple(x) for x in m_trace]:
+                agreed = False
+                n = next((j for j, (a, b) in enumerate(zip(i_trace, m_trace)) if tuple(a) != tuple(b)), min(len(i_trace), len(m_trace)))
+                ctx.broken("correspondence:event-trace model!=impl %s at step %d impl=%r model=%r" % (
+                    key_tail[:160], n, i_trace[n:n + 3], [tuple(x) for x in m_trace[n:n + 3]]))
+            for t, (a, b) in enumerate(zip(run["results"], m_out)):
+                if not same_outcome(a, b):
+                    agreed = False
+                    ctx.broken("correspondence:outcome model!=impl %s thread %d impl=%r model=%r" % (key_tail[:160], t, a, b))
+    # the property's own oracle, on the implementation
+    if run["hang"] is not None:
+        ctx.violation("hang:" + key_tail, "%s: %s" % (where, run["hang"]), replay)
+    for dmsg in run["discipline"][:1]:
+        ctx.violation("discipline:" + key_tail, "%s: %s" % (where, dmsg), replay)
+    for t, (got, ser) in enumerate(zip(run["results"], serial)):
+        if run["hang"] is not None:
+            break
+        if got != ser:
+            what = "%s: thread %d %r returned %r, alone it returns %r (schedule %s)" % (
+                where, t, sp["jobs"][t], got, ser, rle(sched))
+            predicted = m_out is not None and same_outcome(got, m_out[t])
+            if lr and predicted and got[0] == "internal" and got[1] == "KeyError":
+                ctx.violation(F15_CLASS_KEYERR, what, replay)
+                ctx.stat("lr_schedules_with_keyerror")
+            elif lr and predicted and got[0] in ("ok", "exc"):
+                ctx.violation(F15_CLASS_WRONG, what, replay)
+                ctx.stat("lr_schedules_with_wrong_result")
+            else:
+                ctx.violation("outcome:%s|thread=%d" % (key_tail, t), what, replay)
+    switches = sum(1 for a, b in zip(sched, sched[1:]) if a != b)
+    hits = sum(1 for _, k in run["trace"] if k in ("get+", "mget+"))
+    ctx.case(key_tail, nontrivial=(switches >= 1 and hits >= 1), agreed=agreed)
+    return agreed
+
+
+def eval_model(ctx, jobs, tag):
+    """jobs: list of (spec, [schedules]); returns list of lists of (trace, outcomes) or None on failure"""
+    pre = PREAMBLE
+    exprs, index = [], []
+    for i, (sp, scheds) in enumerate(jobs):
+        g, ex = model_exprs(i, sp, scheds)
+        pre += g
+        index.append((len(exprs), len(ex)))
+        exprs += ex
+    if not exprs:
+        return [[] for _ in jobs]
+    out = []
+    CH = 1500
+    try:
+        for c in range(0, len(exprs), CH):
+            out += vlib.coq_eval_terms("c15_%s_%d" % (tag, c), pre, exprs[c:c + CH], timeout=900)
+    except Exception as e:
+        ctx.broken("correspondence:model-eval (%s)" % str(e)[-300:])
+        return None
+    return [out[a:a + n] for a, n in index]
+
+
+# ---- the case families
+def job_sets(thorough):
+    ps, sc = "parse_string", "scan_string"
+    explore = [
+        # (spec, preemption bound)
+        (spec("expr", "packrat", [[ps, 0, "1+2"], [ps, 0, "(1)"]]), 2),
+        (spec("expr", "packrat", [[ps, 0, "1+2"], [ps, 0, "1+2"]]), 2),                 # same input: cross-thread hits
+        (spec("expr", "packrat", [[ps, 0, "1+"], [ps, 0, "(2)+3"]], size=2), 2),          # failure; tiny FIFO
+        (spec("expr", "packrat", [[sc, 0, "1+2)3"], [ps, 0, "(1)"]], size=None), 2),      # scan_string; unbounded cache
+        (spec("expr", "packrat", [[sc, 0, "1)2"], [sc, 0, "(3"]]), 3),
+        (spec("act", "packrat", [[ps, 0, "ab,b"], [ps, 0, "a"]]), 2),                      # nested parse_string in an action
+        (spec("act", "packrat", [[ps, 0, "a,ab"], [sc, 0, "ab,a"]]), 2),
+        (spec("expr", "nomemo", [[ps, 0, "1+2"], [sc, 0, "(1)2"]]), 3),
+        (spec("act", "nomemo", [[ps, 0, "ab,b"], [ps, 0, "a,ab"]]), 3),
+        (spec("lr", "lr", [[ps, 0, "1+2+3"], [ps, 0, "9"]]), 2),
+        (spec("lr", "lr", [[ps, 0, "1+2"], [ps, 0, "1+2"]]), 2),
+        (spec("fw", "lr", [[ps, 0, "a"], [ps, 0, "b"]]), 3),
+        (spec("lr", "lr", [[sc, 0, "1+2"], [ps, 0, "3"]]), 1),
+    ]
+    if thorough:
+        explore += [
+            (spec("expr", "packrat", [[ps, 0, "(1+2)+3"], [ps, 0, "1+(2+3)"]]), 3),
+            (spec("expr", "packrat", [[sc, 0, "1+2)(3)"], [sc, 0, "(1)+2"]], size=1), 3),
+            (spec("act", "packrat", [[sc, 0, "ab,b,a"], [ps, 0, "a,a"]]), 3),
+            (spec("lr", "lr", [[ps, 0, "1+2+3"], [ps, 0, "9"]]), 3),
+            (spec("lr", "lr", [[ps, 0, "1+2+3"], [ps, 0, "1+2"]]), 2),
+        ]
+    three = [
+        spec("expr", "packrat", [[ps, 0, "1+2"], [ps, 0, "(1)"], [sc, 0, "2)1"]]),
+        spec("act", "packrat", [[ps, 0, "ab,b"], [ps, 0, "a"], [ps, 0, "b"]], size=3),
+        spec("expr", "nomemo", [[ps, 0, "1+2"], [ps, 0, "(1)"], [sc, 0, "2)1"]]),
+        spec("lr", "lr", [[ps, 0, "1+2+3"], [ps, 0, "9"], [ps, 0, "1+2"]]),
+    ]
+    return explore, three
+
+
+WITNESSES = [
+    # the F-15 witnesses of Props/C15.v at the granularity of visible operations
+    ("F-15:witness:E<<=E+num|num:parse_string(1+2+3)||parse_string(9):t0.reset,t1.reset,t0.parse,t1.parse",
+     spec("lr", "lr", [["parse_string", 0, "1+2+3"], ["parse_string", 0, "9"]]), [0] * 4 + [1] * 4 + [0]),
+    ("F-15:witness:F<<=Word(ab):parse_string(a)||parse_string(b):t0.reset,t1.reset,t0.parse,t1.parse",
+     spec("fw", "lr", [["parse_string", 0, "a"], ["parse_string", 0, "b"]]), [0] * 4 + [1] * 4 + [0]),
+    ("F-15:witness:E<<=E+num|num:parse_string(1+2+3)||parse_string(9):t1.reset-inside-t0.Forward.parseImpl:KeyError",
+     spec("lr", "lr", [["parse_string", 0, "1+2+3"], ["parse_string", 0, "9"]]), [0] * 7 + [1] * 4 + [0]),
+]
+
+
+def random_schedules(rng, nthreads, count, length):
+    out = [[t for _ in range(length) for t in range(nthreads)]]          # round robin: plenty of `block` entries
+    for _ in range(count):
+        s, cur = [], rng.randrange(nthreads)
+        for _ in range(length):
+            if rng.random() < 0.25:
+                cur = rng.randrange(nthreads)
+            s.append(cur)
+        out.append(s)
+    return out
+
+
+def correspond(ctx):
+    explore, three = job_sets(ctx.thorough)
+    rng = ctx.rng
+    nrand = 60 if ctx.thorough else 12
+    tasks, meta = [], []
+    for sp, bound in explore:
+        tasks.append({"kind": "explore", "spec": sp, "bound": bound, "limit": 6000 if ctx.thorough else 1500})
+        meta.append(("explore", sp, None))
+    for sp in three:
+        tasks.append({"kind": "schedules", "spec": sp, "schedules": random_schedules(rng, 3, nrand, 120)})
+        meta.append(("random3", sp, None))
+    for sp, bound in explore[:9:2]:
+        tasks.append({"kind": "schedules", "spec": sp, "schedules": random_schedules(rng, 2, 4, 150)})
+        meta.append(("random2", sp, None))
+    for key, sp, pre in WITNESSES:
+        tasks.append({"kind": "schedules", "spec": sp, "schedules": [pre]})
+        meta.append(("witness", sp, key))
+    iters = 400 if ctx.thorough else 120
+    stress_specs = [spec("expr", "packrat", [["parse_string", 0, "1+2"], ["parse_string", 0, "(1)"], ["scan_string", 0, "2)1"],
+                                             ["parse_string", 0, "1+2"], ["parse_string", 0, "1+"]], size=4),
+                    spec("act", "packrat", [["parse_string", 0, "ab,b"], ["parse_string", 0, "a,ab"], ["scan_string", 0, "b,a"]]),
+                    spec("expr", "nomemo", [["parse_string", 0, "1+2"], ["parse_string", 0, "(1)"], ["scan_string", 0, "2)1"]]),
+                    spec("lr", "lr", [["parse_string", 0, "1+2+3"], ["parse_string", 0, "9"], ["parse_string", 0, "1+2"]])]
+    for sp in stress_specs:
+        tasks.append({"kind": "stress", "spec": sp, "iters": iters, "threads": 4})
+        meta.append(("stress", sp, None))
+
+    results = run_tasks_parallel(tasks, timeout=900 if ctx.thorough else 150)
+
+    # model evaluation of every replayed schedule, one coqc run
+    jobs, slot = [], {}
+    for i, ((fam, sp, key), (rc, out, res)) in enumerate(zip(meta, results)):
+        if fam == "stress":
+            continue
+        if res is None or "error" in (res or {}):
+            ctx.broken("correspondence:worker failed for %s/%s rc=%s %s" % (fam, spec_id(sp), rc, (res or {}).get("error", out[-200:])))
+            if rc == 124:
+                ctx.violation("hang:subprocess:%s/%s" % (fam, spec_id(sp)),
+                              "the thread experiment did not finish within its hard timeout (deadlock?)",
+                              {"kind": "task", "task": tasks[i]})
+            continue
+        slot[i] = len(jobs)
+        jobs.append((sp, [r["schedule"] for r in res["runs"]]))
+    models = eval_model(ctx, jobs, "q")
+
+    for i, ((fam, sp, key), (rc, out, res)) in enumerate(zip(meta, results)):
+        if fam == "stress":
+            judge_stress(ctx, sp, rc, out, res, tasks[i])
+            continue
+        if i not in slot:
+            continue
+        ms = models[slot[i]] if models is not None else [None] * len(res["runs"])
+        for run, m in zip(res["runs"], ms):
+            if fam == "witness":
+                judge_witness(ctx, sp, res["serial"], run, m, key)
+            else:
+                judge_run(ctx, sp, res["serial"], run, m, fam)
+            ctx.stat("schedules_" + fam)
+            ctx.stat("schedules_mode_" + sp["mode"])
+        if fam == "explore":
+            ctx.coverage_extra.setdefault("explored", {})[spec_id(sp)] = {
+                "schedules": len(res["runs"]), "preemption_bound": tasks[i]["bound"],
+                "complete_within_bound": len(res["runs"]) < tasks[i]["limit"],
+                "max_steps": max(len(r["schedule"]) for r in res["runs"])}
+            ctx.sample({"spec": spec_id(sp), "schedule": rle(res["runs"][-1]["schedule"]), "results": res["runs"][-1]["results"]}, limit=6)
+    ctx.coverage_extra["scope"] = ("2 threads: all schedules within the preemption bound per job set; 3 threads: seeded random "
+                                   "schedules; grammars: %s" % ", ".join(sorted(GRAMMARS)))
+
+
+def judge_witness(ctx, sp, serial, run, model, key):
+    """the refutation witnesses: when the implementation shows the failure the model predicts, report it under the
+    witness's own key; everything else goes through the normal judgement"""
+    n0 = len(ctx.violations) + len(ctx.known_hit)
+    sub = vlib.Ctx(ctx.prop, ctx.tier, ctx.seed)
+    sub.known = {}
+    judge_run(sub, sp, serial, run, model, "witness")
+    for b in sub.tie_broken:
+        ctx.broken(b)
+    shown = False
+    for v in sub.violations:
+        if v["key"] in (F15_CLASS_WRONG, F15_CLASS_KEYERR):
+            ctx.violation(key, v["what"], v["replay"])
+            shown = True
+        else:
+            ctx.violation(v["key"], v["what"], v["replay"])
+    ctx.case(key, nontrivial=True, agreed=not sub.tie_broken)
+    ctx.stat("witness_reproduced_on_implementation" if shown else "witness_not_reproduced")
+    ctx.coverage_extra.setdefault("witnesses", {})[key] = {"reproduced": shown, "results": run["results"], "serial": serial}
+
+
+def judge_stress(ctx, sp, rc, out, res, task):
+    sid = spec_id(sp)
+    if res is None or "error" in res:
+        if rc == 124:
+            ctx.violation("hang:stress:" + sid, "free-running stress did not finish within its hard timeout (deadlock?)",
+                          {"kind": "task", "task": task})
+        else:
+            ctx.broken("correspondence:stress worker failed %s rc=%s %s" % (sid, rc, (res or {}).get("error", out[-200:])))
+        return
+    ctx.stat("stress_calls_" + sp["mode"], res["calls"])
+    ctx.evaluations += res["calls"]
+    for b in res["bad"]:
+        if "hang" in b:
+            ctx.violation("hang:stress:" + sid, b["hang"], {"kind": "task", "task": task})
+        elif sp["mode"] == "lr":
+            # timing dependent and already refuted by the controlled witnesses: one class key, counted
+            ctx.violation("F-15:lr:free-running-stress", "stress: %r returned %r, alone %r" % (b["job"], b["got"], b["serial"]),
+                          {"kind": "task", "task": task})
+            ctx.stat("lr_stress_mismatches")
+        else:
+            ctx.violation("stress:%s|job=%s:%d:%s" % (sid, b["job"][0], b["job"][1], b["job"][2]),
+                          "stress: %r returned %r, alone %r" % (b["job"], b["got"], b["serial"]), {"kind": "task", "task": task})
+
+
+def search(ctx, reasons):
+    """the tie is broken and no failing schedule has been found yet: widen on the implementation oracle"""
+    explore, three = job_sets(True)
+    tasks, meta = [], []
+    for sp, bound in explore:
+        tasks.append({"kind": "explore", "spec": sp, "bound": bound + 1, "limit": 4000})
+        meta.append(sp)
+    for sp in three:
+        tasks.append({"kind": "schedules", "spec": sp, "schedules": random_schedules(ctx.rng, 3, 150, 150)})
+        meta.append(sp)
+    results = run_tasks_parallel(tasks, timeout=600)
+    for sp, (rc, out, res) in zip(meta, results):
+        if res is None or "error" in res:
+            continue
+        for run in res["runs"]:
+            judge_run(ctx, sp, res["serial"], run, None, "search")
+            ctx.stat("search_schedules")
+
+
+def replay(ctx, obj):
+    r = obj["replay"]
+    if r.get("kind") == "schedule":
+        rc, out, res = run_worker([{"kind": "schedules", "spec": r["spec"], "schedules": [r["schedule"]], "detail": True}], "replay", 120)
+        if not res or "error" in res[0]:
+            print("replay could not run: rc=%s %s" % (rc, (res or [{}])[0].get("error", out[-300:])))
+            return False
+        run, serial = res[0]["runs"][0], res[0]["serial"]
+        print("spec      :", spec_id(r["spec"]))
+        print("schedule  :", rle(run["schedule"]))
+        print("alone     :", serial)
+        print("concurrent:", run["results"])
+        print("hang      :", run["hang"])
+        print("discipline:", run["discipline"][:3])
+        ok = run["hang"] is None and not run["discipline"] and run["results"] == serial
+        return ok
+    if r.get("kind") == "task":
+        rc, out, res = run_worker([r["task"]], "replay", 300)
+        if rc == 124 or not res:
+            print("did not finish: rc=%s" % rc)
+            return False
+        print(json.dumps(res[0])[:1500])
+        return not res[0].get("bad") and "error" not in res[0]
+    print("replay names a broken proof/correspondence obligation: %r" % (r,))
+    return False
